@@ -213,6 +213,30 @@ func cloneMap(m map[string][]byte) map[string][]byte {
 	return o
 }
 
+// opsPreview renders the first n operations readably (pool keys are [2]"vk"[4]<index>; shown as #index).
+func opsPreview(ops []op, n int) string {
+	var b bytes.Buffer
+	for i, o := range ops {
+		if i == n {
+			b.WriteString(" …")
+			break
+		}
+		if i > 0 {
+			b.WriteByte(' ')
+		}
+		id := o.k
+		if len(o.k) == 8 {
+			id = o.k[4:]
+		}
+		if o.del {
+			fmt.Fprintf(&b, "del#%x", id)
+		} else {
+			fmt.Fprintf(&b, "set#%x=%x", id, o.v)
+		}
+	}
+	return b.String()
+}
+
 func opsHash(ops []op) uint64 {
 	h := fnv.New64a()
 	for _, o := range ops {
@@ -261,7 +285,7 @@ func TestC08Store(t *testing.T) {
 			pending := cloneMap(c.model)
 			ops, effDel, absentDel, setDel := c.drawBatch(t, pending)
 			mode := rapid.SampledFrom([]string{"commit", "root+commit", "root+reset", "nested-flush", "nested-discard"}).Draw(t, "mode")
-			ec.Desc("b%d:%s:n%d:ed%d:ad%d:sd%d:%x", b, mode, len(ops), effDel, absentDel, setDel, opsHash(ops))
+			ec.Desc("b%d:%s:n%d:ed%d:ad%d:sd%d[%s]%x", b, mode, len(ops), effDel, absentDel, setDel, opsPreview(ops, 5), opsHash(ops))
 			ec.Class("mode=" + mode)
 			switch mode {
 			case "commit", "root+commit", "root+reset":
